@@ -257,6 +257,7 @@ func init() {
 			}
 			// quotient / remainder of (count, n), wherever they are defined in the body
 			var remVar, quoVar types.Object
+			var adjusted []*ast.AssignStmt
 			inspect(f.Decl.Body, func(nd ast.Node) bool {
 				if x, ok := nd.(*ast.AssignStmt); ok && len(x.Lhs) == 1 && len(x.Rhs) == 1 && x.Tok == token.DEFINE {
 					o := prog.IdentObj(info, x.Lhs[0])
@@ -265,12 +266,26 @@ func init() {
 						remVar = o
 					case isBin(x.Rhs[0], token.QUO):
 						quoVar = o
+					default:
+						// count/n or count%n wrapped into something else (max(count/n, 1), count/n + 1, ...)
+						inspect(x.Rhs[0], func(m ast.Node) bool {
+							if e, isExpr := m.(ast.Expr); isExpr && (isBin(e, token.QUO) || isBin(e, token.REM)) {
+								adjusted = append(adjusted, x)
+							}
+							return true
+						})
 					}
 				}
 				return true
 			})
 			bad := func(tag, msg string) {
 				r.Fail(f.Name()+":"+tag, f.Decl.Pos(), nil, "keyGroupRanges does not build the canonical ranges: %s", msg)
+			}
+			for _, a := range adjusted {
+				r.Fail(f.Name()+":adjusted-quotient", a.Pos(), nil, "keyGroupRanges does not build the canonical ranges: %s is not the plain quotient / remainder of (key-group count, range count): the sizes are no longer count/n and count/n+1 for every configuration (for example more ranges than key groups)", types.ExprString(a.Rhs[0]))
+			}
+			if len(adjusted) > 0 {
+				return
 			}
 			// the loop that fills ranges[i]
 			var rangesVar types.Object
@@ -357,7 +372,7 @@ func init() {
 			// afterwards ranges[i] = {Start: c, End: c + quo + [i<rem]} and cursor = End
 			for _, sign := range []int{-1, 0, 1} {
 				lt := sign < 0
-				ev := &linEval{r: r, info: info, sign: sign, env: map[types.Object]lin{
+				ev := &linEval{r: r, info: info, sign: sign, clampBy: p0, env: map[types.Object]lin{
 					cursor: {"c": 1}, idx: {"i": 1},
 				}}
 				if quoVar != nil {
@@ -1071,6 +1086,12 @@ type linEval struct {
 	ret        lin                        // value returned by the helper being evaluated
 	sym        func(ast.Expr) (lin, bool) // expressions with a fixed symbolic value (count/n, count%n written inline)
 	returned   bool
+	clampBy    types.Object // the key-group count parameter: min(x, count) evaluates to x
+}
+
+func identOf(e ast.Expr) *ast.Ident {
+	id, _ := ast.Unparen(e).(*ast.Ident)
+	return id
 }
 
 func (e *linEval) val(x ast.Expr) (lin, bool) {
@@ -1109,6 +1130,17 @@ func (e *linEval) val(x ast.Expr) (lin, bool) {
 			}
 		}
 	case *ast.CallExpr:
+		// min(x, count): the canonical bound never exceeds the key-group count, so the clamp is the
+		// identity on a canonical construction (a non-canonical x is reported as such)
+		if id, isID := y.Fun.(*ast.Ident); isID && id.Name == "min" && len(y.Args) == 2 && e.clampBy != nil {
+			if _, isB := e.info.Uses[id].(*types.Builtin); isB {
+				for k := 0; k < 2; k++ {
+					if o := e.info.Uses[identOf(y.Args[k])]; o != nil && o == e.clampBy {
+						return e.val(y.Args[1-k])
+					}
+				}
+			}
+		}
 		// a new helper evaluated in place
 		if hf := e.r.P.FuncInfoOf(e.r.P.CalleeFunc(e.info, y)); isNewHelper(e.r.P, hf) && hf.Decl.Type.Params != nil {
 			sub := &linEval{r: e.r, info: hf.Pkg.TypesInfo, sign: e.sign, env: map[types.Object]lin{}}
